@@ -109,11 +109,26 @@ Definition snap_eqb (a b : snap) : bool :=
 Section Run.
 Variable eh : bytes -> option Z.
 Definition mstep := step crc32c_be (fun _ => true) eh true.
-Fixpoint mrun (s : st) (ops : list op) : st * list ans * list snap :=
+(* A reader or a search that starts far below the oldest file of the directory re-creates every
+   file number in between (openFile uses O_CREATE); the model would materialise them all.  The
+   harness only asks for indices between the group's own MinIndex and MaxIndex, so this happens
+   only when the implementation's idea of its indices is off by thousands: the model is not run
+   further and the case is a mismatch (observable 19), unless a monitor has failed already. *)
+Definition max_recreated : Z := 256.
+Definition too_far (s : st) (o : op) : bool :=
+  let base := gmax s - Z.of_nat (List.length (files s)) in
+  match o with
+  | ORead idx => (max_recreated <? base - idx) || (max_recreated <? idx - gmax s)
+  | OSearch _ _ => (max_recreated <? base - gmin s) || (max_recreated <? gmax s - gmin s - Z.of_nat (List.length (files s)))
+  | ORestart _ _ _ _ _ => false
+  | _ => false
+  end.
+Fixpoint mrun (s : st) (ops : list op) : st * list ans * list snap * bool :=
   match ops with
-  | [] => (s, [], [])
-  | o :: r => let '(s1, a) := mstep s o in
-              let '(s2, l, sn) := mrun s1 r in (s2, a :: l, snap_of s1 :: sn)
+  | [] => (s, [], [], true)
+  | o :: r => if too_far s o then (s, [], [], false) else
+              let '(s1, a) := mstep s o in
+              let '(s2, l, sn, ok) := mrun s1 r in (s2, a :: l, snap_of s1 :: sn, ok)
   end.
 End Run.
 
@@ -388,9 +403,16 @@ Definition check (c : case) : verdict :=
                             m_flipped := false;
                             m_tainted := false; m_prev := snap0 base prer; m_verd := [] |}
                      ops answers snaps in
-    let '(s, mans, msnaps) := mrun (lookup tab) (init_at crc32c_be hl tl base prer) (map mop ops) in
-    first_of (m_verd m ++
-              cmp_answers mans answers ++ cmp_snaps msnaps snaps ++
-              [ mism (list_eqb bytes_eqb (files s) (map unpl ffiles)) 17;
-                mism (bytes_eqb (head s ++ buf s) (unpl fhead)) 18 ])
+    (* a failed monitor is the verdict; the model is evaluated only when all monitors hold *)
+    match filter is_violation (m_verd m) with
+    | v :: _ => v
+    | [] =>
+      let '(s, mans, msnaps, ok) :=
+        mrun (lookup tab) (init_at crc32c_be hl tl base prer) (map mop ops) in
+      if negb ok then first_of (m_verd m ++ [V_mismatch 19]) else
+      first_of (m_verd m ++
+                cmp_answers mans answers ++ cmp_snaps msnaps snaps ++
+                [ mism (list_eqb bytes_eqb (files s) (map unpl ffiles)) 17;
+                  mism (bytes_eqb (head s ++ buf s) (unpl fhead)) 18 ])
+    end
   end.
